@@ -105,18 +105,32 @@ def check(run):
     run.cov['search'] = ('direct differential oracle f(*a) vs to_graph(f)(*a) / convert()(f)(*a): %d cases over %d programs'
                          % (agg['cases'], agg['programs']))
 
-    # per-pass correspondences contributed by the pass builders
-    for modname, fn in PART_HOOKS:
-        try:
-            mod = importlib.import_module(modname)
-        except ModuleNotFoundError:
-            run.notes.append('part hook %s not present' % modname)
-            continue
-        hook = getattr(mod, fn, None)
-        if hook is None:
-            run.notes.append('part hook %s.%s not present' % (modname, fn))
-            continue
-        hook(run)
+    # jump-lowering passes (break / continue / return): Lean mirrors diffed per pass against the real output, the
+    # semantic lowerings tied to them per program, Malt.Sem validated against CPython, three-pass oracle.
+    # Runs as a sub-run of the development alias C01J (own driver drv_c01j) and is merged into this run.
+    # (The expression passes' and control_flow's model-vs-code correspondences run under C04 and C03.)
+    try:
+        import c01_jumps
+    except ModuleNotFoundError:
+        run.notes.append('c01_jumps not present')
+        return
+    sub = common.Run('C01J', run.tier, run.seed)
+    if quick:
+        os.environ['C01J_MAX_PROGRAMS'] = os.environ.get('C01J_MAX_PROGRAMS', '1200')
+    c01_jumps.check_part(sub)
+    for o in sub.obligations:
+        if o['name'].startswith('theorem:') and any(x['name'] == o['name'] for x in run.obligations):
+            continue        # Props/C01Jumps is already audited above
+        run.obligations.append(dict(o, name='jumps/' + o['name']))
+    for f in sub.failing:
+        run.failing.append(f)
+    run.evaluations += sub.evaluations
+    run.nontrivial = set(range(len(run.nontrivial) + len(sub.nontrivial)))
+    run.cov['jump_passes'] = {k: v for k, v in sub.cov.items() if k not in ('checker_cmd',)}
+    run.cov['jump_passes']['cases'] = sub.evaluations
+    for smp in sub.samples[:2]:
+        run.sample(smp)
+    run.axioms.update(sub.axioms)
 
 
 def replay(run, path):
